@@ -34,6 +34,7 @@ package multicast
 //@   consumes fn unless upArmedR(p)
 //@   ensures [armed] invoked(fn) == 0 ==> p.ioc.poller.pending == old(p.ioc.poller.pending) + 1 && p.slot.Handlers[0] != nil
 //@   ensures [C12 recorded] invoked(fn) == 0 ==> alias(p.read.b, old(p.read.b)) && p.read.fn == old(p.read.fn)
+//@   assert any call fn: [C12 error-count] arg0 != nil && arg1 == 0
 //@   ensures [depth] p.ioc.Dispatched == old(p.ioc.Dispatched)
 
 //@ func (*UDPPeer).SetAsyncReadBuffer
@@ -50,6 +51,10 @@ package multicast
 //@   remember after call UDPPeer).Read: moved = result2 == nil
 //@   remember after call UDPPeer).Read: got := result0
 //@   assert call fn: [C12 no-swallowed-error] (arg0 == nil ==> moved && arg1 == got) && arg0 != sonicerrors.ErrWouldBlock
+//@   // an error other than would-block is reported now, with no bytes counted
+//@   remember after call UDPPeer).Read: failed = result2 != nil && result2 != sonicerrors.ErrWouldBlock
+//@   assert call fn: [C12 error-count] arg0 != nil ==> arg1 == 0
+//@   ensures [C12 errors-reported] failed ==> invoked(fn) == 1
 //@   consumes fn unless upArmedR(p)
 //@   ensures [depth] p.ioc.Dispatched == old(p.ioc.Dispatched)
 
@@ -78,6 +83,7 @@ package multicast
 //@   consumes fn unless upArmedW(p)
 //@   ensures [armed] invoked(fn) == 0 ==> p.ioc.poller.pending == old(p.ioc.poller.pending) + 1 && p.slot.Handlers[1] != nil
 //@   ensures [C12 recorded] invoked(fn) == 0 ==> alias(p.write.b, old(p.write.b)) && p.write.addr == old(p.write.addr) && p.write.fn == old(p.write.fn)
+//@   assert any call fn: [C12 error-count] arg0 != nil && arg1 == 0
 //@   ensures [depth] p.ioc.Dispatched == old(p.ioc.Dispatched)
 
 //@ func (*UDPPeer).asyncWriteNow
@@ -88,6 +94,10 @@ package multicast
 //@   remember after call UDPPeer).Write: moved = result1 == nil
 //@   remember after call UDPPeer).Write: sent := result0
 //@   assert call fn: [C12 no-swallowed-error] (arg0 == nil ==> moved && arg1 == sent) && arg0 != sonicerrors.ErrWouldBlock
+//@   // only would-block and "no buffer space" are waited for; any other error is reported now, with no bytes counted
+//@   remember after call UDPPeer).Write: failed = result1 != nil && result1 != sonicerrors.ErrWouldBlock && result1 != sonicerrors.ErrNoBufferSpaceAvailable
+//@   assert call fn: [C12 error-count] arg0 != nil ==> arg1 == 0
+//@   ensures [C12 errors-reported] failed ==> invoked(fn) == 1
 //@   consumes fn unless upArmedW(p)
 //@   ensures [depth] p.ioc.Dispatched == old(p.ioc.Dispatched)
 
@@ -245,3 +255,7 @@ package multicast
 //@ func NewUDPPeer
 //@   prop C13
 //@   ensures [no-leak] result1 != nil ==> (forall k :: FDOPEN[k] == old(FDOPEN[k]))
+//@   // success hands out a peer whose socket is open
+//@   remember after call NewSocket: made = result1 == nil
+//@   remember after call NewSocket: nfd := result0.fd
+//@   ensures [opened] result1 == nil ==> made && FDOPEN[nfd] == 1 && result0 != nil
